@@ -627,6 +627,8 @@ Proof.
   - inversion H. eapply delete_assignment_ok; eauto.
   - inversion H; subst. exact Hok.
   - inversion H; subst. exact Hok.
+  - inversion H; subst. exact Hok.
+  - inversion H; subst. exact Hok.
 Qed.
 
 Lemma refs_ok_empty : refs_ok empty_table.
